@@ -3,6 +3,7 @@
 // declaration, runs it, and snapshots everything observable through the public API.
 #pragma once
 
+#include <cerrno>
 #include <nitro/options/parser.hpp>
 
 #include "../engine/json.hpp"
@@ -573,6 +574,8 @@ inline std::string value_class(const std::string& v)
 inline std::string env_class(const Decl& D, const Env& env)
 {
     std::string s;
+    if (env.count("VERIF_AMBIENT_ERRNO"))
+        s = "errno=" + env.at("VERIF_AMBIENT_ERRNO");
     for (auto& i : D.items)
     {
         if (i.env.empty())
@@ -633,8 +636,25 @@ inline void build(nitro::options::parser& p, const Decl& D)
     p.greedy_postionals(D.greedy);
 }
 
+// Ambient state of the calling thread that is not an input of the parser: the pseudo variable VERIF_AMBIENT_ERRNO in an
+// Env makes the harness leave that value in errno right before the parse call (a caller may legitimately arrive with a
+// stale ERANGE / EINVAL from its own earlier strtol, exp, ...).  It travels with the witness, so replay and minimisation
+// need nothing extra; the reference ignores it.
+static const char* const AMBIENT_ERRNO = "VERIF_AMBIENT_ERRNO";
+inline void set_ambient_errno()
+{
+    if (const char* e = getenv(AMBIENT_ERRNO))
+        errno = atoi(e);
+}
 inline void apply_env(const Decl& D, const Env& env)
 {
+    {
+        auto e = env.find(AMBIENT_ERRNO);
+        if (e == env.end())
+            unsetenv(AMBIENT_ERRNO);
+        else
+            setenv(AMBIENT_ERRNO, e->second.c_str(), 1);
+    }
     for (auto& it : D.items)
     {
         if (it.env.empty())
@@ -698,6 +718,7 @@ inline Res run_on(nitro::options::parser& p, const Decl& D, const std::vector<st
     Res r;
     try
     {
+        set_ambient_errno();
         auto args = p.parse(static_cast<int>(a.size()), a.data());
         auto snap = snapshot(D, args);
         if (on_accept)
@@ -749,6 +770,7 @@ inline Res run_on_vector(nitro::options::parser& p, const Decl& D, const std::ve
         std::vector<nitro::options::user_input> in;
         for (auto& s : av)
             in.emplace_back(s);
+        set_ambient_errno();
         auto args = p.parse(in);
         return snapshot(D, args);
     }
